@@ -29,9 +29,10 @@ PLANS = {
     ),
     'C06': dict(
         oracle='C06', level='exploration',
-        profiles=[('core', 3), ('hier', 2)], curated=[], configs=ALLCFG,
+        profiles=[('core', 3), ('hier', 2), ('pseudo', 1)], curated=[], configs=ALLCFG,
         cp=dict(max_ops=25, kinds=['P']), examples=(300, 1500), floor=(40, 160),
-        rule='Generated histories with valuations forcing mixed outcomes; model-free invariants per process_event call: region '
+        rule='Generated histories with valuations forcing mixed outcomes (one machine with entry/exit pseudo states, where an '
+             'exit-point event sent from outside must count as not matched); model-free invariants per process_event call: region '
              'indices of observed behaviours never decrease per machine; handled bit <=> a transition behaviour ran; zero <=> no '
              'guard consulted and nothing ran; no_transition multiset == root active states iff zero, never on a submachine; '
              'plus result class == model. Non-trivial = outcomes differ between root regions, or nothing matched; distinct by '
